@@ -511,5 +511,11 @@ mut("c20-xy-inherited", "C20", "children inherit an enclosing element's y (the p
 '''                for attr in (SVG_ATTR_X, SVG_ATTR_WIDTH, SVG_ATTR_HEIGHT):
                     if attr in values:''', runs=20000)
 
+mut("c20-writer-mutates-transform", "C20", "the writer folds the inverse viewport transform into the node's own matrix (in place): the tree changes by being written",
+'''        if viewport_transform:
+            t = t * viewport_transform''',
+'''        if viewport_transform:
+            t *= viewport_transform''')
+
 json.dump(M, open(os.path.join(HERE, "mutants", "mutants.json"), "w"), indent=1)
 print("wrote", len(M), "mutants")
